@@ -129,7 +129,7 @@ class MLParameter:
 
             self._handle_var_dependency(ndim_str, valid_ndims)
 
-        self.valid_ndims = list(valid_ndims)
+        self.valid_ndims = sorted(valid_ndims)
 
     def _handle_inequality(self, ndim_str, valid_ndims) -> bool:
         if ">=" in ndim_str:
@@ -475,7 +475,7 @@ class MLParameter:
         if any("str" in dtype.lower() for dtype in dtype_constraints):
             known_dtypes.append("str")
 
-        rest_dtypes = list(
+        rest_dtypes = sorted(
             set(dtype_constraints)
             - set(known_dtypes_dict.keys())
             - {dtype for dtype in dtype_constraints if "str" in dtype.lower()}
@@ -484,7 +484,7 @@ class MLParameter:
         special_dtypes = self._extract_special_dtypes(rest_dtypes)
         self._extract_dtype_dependencies(rest_dtypes, known_dtypes)
 
-        rest_dtypes = list(set(rest_dtypes) - set(special_dtypes) - set(known_dtypes))
+        rest_dtypes = sorted(set(rest_dtypes) - set(special_dtypes) - set(known_dtypes))
         if rest_dtypes:
             self._logger.warning("Unknown dtypes occurred: %s", rest_dtypes)
 
@@ -494,7 +494,7 @@ class MLParameter:
 
         dtype_list = self._expand_special_dtypes(special_dtypes, default_dtypes)
         dtype_list += known_dtypes
-        self.valid_dtypes = list(set(dtype_list))
+        self.valid_dtypes = sorted(set(dtype_list))
 
     @staticmethod
     def _extract_special_dtypes(dtype_list):
